@@ -68,8 +68,17 @@ theorem C23_engine_total {St K : Type} (top : Goal St K → St → Strm St K) (l
     under any hash-iteration order, through the re-entrant propagation loop, NEVER reaches a panic site —
     in particular `fd-minmax` (min/max of an empty domain, src/state/fd.rs:17,33) is unreachable because
     every stored domain stays non-empty and sorted; an unsatisfiable conjunction simply fails. -/
-theorem C23_state_machine {ord : Order} (ho : OrderOK ord) (n : Nat) (as : List FAtom) (hok : ∀ a ∈ as, a.OK)
+theorem C23_state_machine {ord : Order} (ho : OrderOK ord) (n : Nat) (as : List FAtom)
+    (hok : ∀ a ∈ as, @FAtom.OK Mode.strict a)
     (s : String) : postAllF ord (State.empty n) as ≠ .panic s := fd_no_panic ho n as hok s
+
+/-- … and with `distinctfd` (on proper list terms) the only panic sites that remain reachable are its own
+    three (`Invalid constant constraint` / `Invalid value` / `Invalid LTerm`: a list element that is, or has
+    been bound to, something that is not an integer — an operand of a kind the relation does not document),
+    and they are reached only from conjunctions that have no solution -/
+theorem C23_state_machine_distinctfd {ord : Order} (ho : OrderOK ord) (n : Nat) (as : List FAtom)
+    (hok : ∀ a ∈ as, @FAtom.OK Mode.lax a) (s : String) (h : postAllF ord (State.empty n) as = .panic s) :
+    DP s ∧ ¬ ∃ γ, ∀ a ∈ as, a.Sat γ := (@fd_panic_refuted Mode.lax ord ho n as hok s h).2
 
 section Examples
 open Term
